@@ -77,7 +77,8 @@ func (node *DHTNode) RemovePeer(localID p2p.PeerID) bool {
 	node.mu.Lock()
 	defer node.mu.Unlock()
 	e := node.peers.Delete(localID[:])
-	return e != nil
+	// Delete returns a pointer to the zero Entry when the key's bucket exists but the key is not in it
+	return e != nil && e.Key != nil
 }
 
 // GetPeerInfo returns information associated with the peer, if it exists.
